@@ -52,7 +52,10 @@ RULE = (
     "features, garbage beyond in_lens / ref_lens (NaN, inf, +-2^62, negative, plausible), one larger instance "
     "(T=300 / 200 / R=40), the plain call under torch.set_default_dtype(float64) and under inference_mode, "
     "torch.jit.script and torch.jit.trace forms of both modules (traced on an example of another shape and "
-    "other values; called on plain, reversed and lengths-omitted inputs), plus (1,1,3) refs for every segment; every call: arguments unchanged, the previous "
+    "other values; called on plain, reversed and lengths-omitted inputs), plus (1,1,3) refs for every segment; lifecycle: 9 variants (deepcopy, pickle, torch.save, copy after use / "
+    "in eval mode, same-configuration state_dict into a fresh / used module, double-float, state_dict into a module "
+    "of another configuration = one of the two configurations as a whole) of both modules for every option "
+    "combination (54 + 4, falsy values included) on <= 500 rows each; every call: arguments unchanged, the previous "
     "result and the previous module result unchanged, result equal to the oracle. "
     "Cases are cartesian products of duplicate-free generators (distinct by construction); a case is "
     "non-trivial when the oracle prescribes >= 1 window (slicer) / the list holds >= 1 known token and "
